@@ -174,6 +174,7 @@ def newString (m : Mem) (src : Src) (len : Nat) (mallocOk : Bool) : Outcome (Mem
   let lim1 ← ckSize (SSIZE_MAX - h) "new: SSIZE_T_MAX - (sizeof(*jso) - sizeof(jso->c_string))"
   let lim ← ckSize ((lim1 : Int) - strNewGuardSlack) "new: SSIZE_T_MAX - (...) - 1"
   if len > lim then .ok (m, none)
+  else if (len : Int) ≥ INT_MAX - strNewIntGuardSlack then .ok (m, none)
   else
     let s1 ← ckSize ((h : Int) + len) "new: (sizeof(*jso) - sizeof(jso->c_string)) + len"
     let s2 ← ckSize ((s1 : Int) + strNewNulRoom) "new: ... + len + 1"
